@@ -23,6 +23,8 @@ def sh(*a, **k):
 
 
 for prop in sorted(os.listdir(src)):
+    if not os.path.isdir(os.path.join(src, prop)):
+        continue
     for n in sorted(os.listdir(os.path.join(src, prop))):
         d = os.path.join(src, prop, n)
         if not os.path.isfile(os.path.join(d, "patch.diff")):
@@ -53,7 +55,10 @@ for prop in sorted(os.listdir(src)):
             for f in os.listdir(d):
                 if f in ("patch.diff", "meta.json", "confirm.json"):
                     continue
-                shutil.copy2(os.path.join(d, f), os.path.join(dst, f))
+                if os.path.isdir(os.path.join(d, f)):
+                    shutil.copytree(os.path.join(d, f), os.path.join(dst, f), dirs_exist_ok=True)
+                else:
+                    shutil.copy2(os.path.join(d, f), os.path.join(dst, f))
             m = json.load(open(os.path.join(d, "meta.json")))
             old = {}
             if os.path.exists(os.path.join(dst, "meta.json")):
